@@ -160,7 +160,7 @@ def lookahead (st : IState) (c : Idx) : CMap := updateCoeff [c] st.active st.ctr
 /-- all 0/1 vectors of length `d` -/
 def cube : Nat → List Idx
   | 0 => [[]]
-  | d + 1 => (cube d).flatMap fun e => [0 :: e, 1 :: e]
+  | d + 1 => (cube d).map (0 :: ·) ++ (cube d).map (1 :: ·)
 
 /-- inclusion–exclusion weight: Σ over 0/1 offsets `e` with `i + e ∈ S` of `(-1)^{|e|}`. -/
 def IE (S : List Idx) (i : Idx) : Int :=
